@@ -23,7 +23,7 @@ Emit(X) ==
                      hasClim |-> D.hasClim, clim |-> InputJson(D.clim), climType |-> D.climType,
                      opts |-> OptJson(O),
                      err |-> X.n = 0,
-                     times |-> X.T, leads |-> X.L, locs |-> X.S,
+                     times |-> CommonTimes(D, O), leads |-> CommonLeads(D, O), locs |-> CommonLocs(D, O),    \* per dimension, also when the selection is empty
                      axes |-> IF X.n = 0 THEN <<>> ELSE LET as == SetToSeq(MenuAxes \ {"all"}) IN [m \in DOMAIN as |-> [a |-> as[m], keys |-> SliceKeys(X, as[m])]],
                      req |-> [k \in DOMAIN rseq |-> ReqJson(X, rseq[k])]]))
 
